@@ -14,29 +14,29 @@ ALL = sorted(P.CURATED)
 HEAVY = ("P19-chain-with-second-submitter", "P22-backlog-then-chain")
 
 
-def jobs(tier):
-    light = [n for n in ALL if n not in HEAVY]
+LINE = ["P1-prequeued-then-start", "P3-idle-timeout-then-enqueue", "P5-between-stop-and-restart", "P6-stop-races-enqueue",
+        "P9-start-races-submitter", "P8-failing-task", "P2-two-submitters", "P24-enq-during-idle-retire"]
+
+
+def harnesses(tier):
     if tier == "quick":
-        j = P.generated_jobs(3, [(1, 0), (2, 0), (2, 1)], "sync", 1, 1)
-        j += P.curated_jobs(light, [(1, 0), (2, 1)], "sync", 1, 1)
-        j += P.curated_jobs(light, [(2, 0)], "sync", 2, 0)
-        j += P.curated_jobs(HEAVY, [(1, 0), (2, 1)], "sync", 1, 0)
-        j += P.curated_jobs(["P1-prequeued-then-start", "P3-idle-timeout-then-enqueue", "P5-between-stop-and-restart",
-                             "P6-stop-races-enqueue", "P9-start-races-submitter", "P8-failing-task"], [(1, 0), (2, 1)], "line", 1, 0)
+        h = P.curated_h(ALL, [(1, 0), (1, 1), (2, 0), (2, 1)], "sync")
+        h += P.generated_h(3, [(1, 0), (2, 0), (2, 1)], "sync")
+        h += P.curated_h(LINE, [(1, 0), (2, 1)], "line")
     else:
         sizes = [(1, 0), (1, 1), (2, 0), (2, 1), (2, 2), (3, 0), (3, 1), (3, 3)]
-        j = P.generated_jobs(4, [(1, 0), (2, 0), (2, 1)], "sync", 1, 1)
-        j += P.generated_jobs(3, sizes, "sync", 2, 1)
-        j += P.curated_jobs(light, sizes, "sync", 2, 1)
-        j += P.curated_jobs(light, [(1, 0), (2, 1)], "sync", 3, 1)
-        j += P.curated_jobs(HEAVY, sizes, "sync", 1, 1)
-        j += P.curated_jobs(light, [(1, 0), (2, 0), (2, 1)], "line", 1, 1)
-        j += P.curated_jobs(["P1-prequeued-then-start", "P3-idle-timeout-then-enqueue", "P6-stop-races-enqueue"], [(1, 0), (2, 0)], "line", 2, 0)
-    return j
+        h = P.curated_h(ALL, sizes, "sync")
+        h += P.curated_h(["P12-bounded-queue", "P2-two-submitters", "P11-saturate"], [(1, 0), (2, 1)], "sync", qsize=1)
+        h += P.generated_h(4, [(1, 0), (1, 1), (2, 0), (2, 1), (3, 1)], "sync")
+        h += P.curated_h(ALL, [(1, 0), (1, 1), (2, 0), (2, 1)], "line")
+    return h
+
+
+BUDGET = {"quick": 1500, "thorough": 60000}
 
 
 def leg(part, tier, shard, nshards):
-    P.run_pool_leg(part, PROP, jobs(tier))
+    P.run_pool_leg(part, PROP, harnesses(tier), BUDGET[tier])
 
 
 LEGS = {"schedules": leg}
@@ -51,8 +51,8 @@ META = {
     "plus 24 curated two-thread programs; every schedule with <=K preemptions and <=T early timer firings (K,T in the harness label) at "
     "synchronisation-operation granularity, and at source-line granularity of threadpool.py for the programs aimed at unsynchronised code; "
     "non-trivial = execution with at least one choice point; distinct by (harness, choice sequence)",
-    "bounds": {"quick": {"program_length": 3, "K": "1-2", "T": "0-1", "sizes": "(1,0) (2,0) (2,1)"},
-               "thorough": {"program_length": 4, "K": "1-3", "T": 1, "sizes": "all (max,min) with max<=3 listed in the design"}},
+    "bounds": {"quick": {"program_length": 3, "levels": "iterative (K,T) in (0,0) (1,0) (1,1) (2,1) (3,1) (3,2) (4,2): next level while its predicted size (last level x observed growth) is <= 1500 executions; deepest completed level per harness in notes.completed_bounds", "sizes": "(1,0) (1,1) (2,0) (2,1)"},
+               "thorough": {"program_length": 4, "levels": "same ladder, predicted size <= 60000 executions", "sizes": "all eight (max,min) with max<=3"}},
     "assumptions": [
         "thread switches happen only at synchronisation operations (and at line boundaries of threadpool.py in the line-granularity harnesses)",
         "threading and queue are the shim implementations (stdlib queue.py source over shim threading, virtual clock)",
